@@ -406,6 +406,47 @@ pub fn execute(prop: &str, sc: &RrScript, opts: &ExecOpts) -> Outcome {
                             }
                         }
                     }
+                    // A clone that has completed a call after the outage has re-established its
+                    // stream: nothing disturbs it afterwards, so its later calls are owed an answer
+                    // again (whatever the other clones of the same requestor are doing).
+                    if outage && !results.is_empty() {
+                        let t_start = results.iter().map(|c| c.issued_ms).min().unwrap_or(0);
+                        let t_out = t_start + sc.outage_at_ms.unwrap_or(0);
+                        for (si, s) in sc.streams.iter().enumerate() {
+                            for (ci, cl) in s.clones.iter().enumerate() {
+                                let mut recovered = false;
+                                for spec in cl {
+                                    let Some(cr) = results.iter().find(|c| c.k == spec.k) else { continue };
+                                    if cr.issued_ms < t_out + 50 {
+                                        continue;
+                                    }
+                                    match &cr.result {
+                                        Ok(_) => recovered = true,
+                                        Err(e) if recovered => {
+                                            let scripted = match spec.plan {
+                                                Plan::Now | Plan::Twice => Some(0),
+                                                Plan::After(d) => Some(d),
+                                                _ => None,
+                                            };
+                                            let legit_timeout = cr.timeout_err && (scripted.is_none() || !quiet_net || scripted.unwrap() + slack >= sc.timeout_ms);
+                                            if !legit_timeout {
+                                                out.violate(
+                                                    prop,
+                                                    "call-after-recovery-failed",
+                                                    if cr.timeout_err { "timeout" } else { "other-error" },
+                                                    format!("stream {si} clone {ci}: call q{} issued at {} ms failed with {e:?} although this clone had already completed a call after the outage at {t_out} ms (plan {:?})", cr.k, cr.issued_ms, spec.plan),
+                                                );
+                                            }
+                                        }
+                                        Err(_) => {}
+                                    }
+                                }
+                                if recovered {
+                                    out.probe("clones_recovered_after_outage");
+                                }
+                            }
+                        }
+                    }
                     if ok_order.windows(2).any(|w| w[0] > w[1]) {
                         out.probe("replies_completed_out_of_request_order");
                     }
